@@ -1121,3 +1121,128 @@ def substitute_generics(adt, selfty, field_ty):
             continue
         out = re.sub(r"(?<![A-Za-z_:0-9])%s(?![A-Za-z_0-9])" % re.escape(p_), a, out)
     return out
+
+
+# ------------------------------------------------------------------------------------------------------------
+# K12: interval abstract interpretation of integer operands (is an overflow-checked operation provably exact?)
+
+_IWIDTH = {"i8": 8, "i16": 16, "i32": 32, "i64": 64, "isize": 64, "i128": 128,
+           "u8": 8, "u16": 16, "u32": 32, "u64": 64, "usize": 64, "u128": 128}
+_CONST_SCALAR = re.compile(r"const Scalar\(0x([0-9a-f]+)\): (\w+)")
+_CONST_PLAIN = re.compile(r"const (-?\d+)_(\w+)")
+_TOP = (-(1 << 200), 1 << 200)
+
+
+# results of std calls with a documented range
+_CALL_RANGES = [
+    (re.compile(r"^(core|std)::(num|i32|i64|isize)::.*::signum$|^i(32|64|size)::signum$|::<impl i(32|64|size)>::signum$"), (-1, 1)),
+    (re.compile(r"^(std|core|alloc)::(vec::Vec|slice|str|string::String)\b.*::len$|::<impl \[T\]>::len$|::<impl str>::len$"),
+     (0, (1 << 63) - 1)),
+]
+
+
+def type_range(ty):
+    w = _IWIDTH.get(ty)
+    if w is None:
+        return (0, 1) if ty == "bool" else _TOP
+    return (0, (1 << w) - 1) if ty.startswith("u") else (-(1 << (w - 1)), (1 << (w - 1)) - 1)
+
+
+def _const_val(text):
+    m = _CONST_SCALAR.search(text)
+    if m:
+        ty = m.group(2)
+        w = _IWIDTH.get(ty)
+        if w is None:
+            return None
+        v = int(m.group(1), 16)
+        if ty.startswith("i") and v >= 1 << (w - 1):
+            v -= 1 << w
+        return v
+    m = _CONST_PLAIN.search(text)
+    if m:
+        return int(m.group(1))
+    return None
+
+
+def int_range(fn, operand, depth=12, _defs=None):
+    """a sound interval [lo, hi] for the value of an integer operand: constants by value, widening casts by their
+    source, checked sums/differences/products by interval arithmetic, everything else the range of its type"""
+    operand = operand.strip()
+    if operand.startswith("const"):
+        v = _const_val(operand)
+        return (v, v) if v is not None else _TOP
+    m = re.match(r"(?:copy |move )?(_\d+)$", operand)
+    if not m:
+        return _TOP
+    l = m.group(1)
+    full = type_range(fn.locals.get(l, ""))
+    if depth <= 0:
+        return full
+    if _defs is None:
+        _defs = defs_of(fn)
+    defs, cdefs = _defs
+    ds = [st for st in defs.get(l, []) if st.lhs == l]
+    n = int(l[1:])
+    if cdefs.get(l) and not defs.get(l) and len(cdefs[l]) == 1 and not (0 < n <= fn.nargs):
+        for pat, r in _CALL_RANGES:
+            if pat.search(cdefs[l][0].name):
+                return _meet(full, r)
+    if cdefs.get(l) or len(ds) != len(defs.get(l, [])) or not ds or 0 < n <= fn.nargs:
+        return full
+    lo, hi = None, None
+    for st in ds:
+        r = full
+        if st.kind == "use" and st.ops:
+            op = st.ops[0]
+            mo = re.match(r"(?:copy |move )(_\d+)\.#0$", op)
+            if mo:
+                src = defs.get(mo.group(1), [])
+                if len(src) == 1 and src[0].kind.startswith("binop ") and "WithOverflow" in src[0].kind \
+                        and not cdefs.get(mo.group(1)):
+                    r = _meet(full, _binop_range(fn, src[0], depth - 1, _defs))
+            elif re.match(r"(?:copy |move )_\d+$", op) or op.startswith("const"):
+                r = _meet(full, int_range(fn, op, depth - 1, _defs))
+        elif st.kind == "cast IntToInt" and st.ops:
+            inner = int_range(fn, st.ops[0], depth - 1, _defs)
+            if len(st.ops) > 1:
+                inner = _meet(inner, type_range(st.ops[1].split(" -> ")[0].strip()))
+            # value-preserving only when the target can hold the whole source interval
+            r = inner if full[0] <= inner[0] and inner[1] <= full[1] else full
+        lo = r[0] if lo is None else min(lo, r[0])
+        hi = r[1] if hi is None else max(hi, r[1])
+    return (lo, hi)
+
+
+def _meet(a, b):
+    lo, hi = max(a[0], b[0]), min(a[1], b[1])
+    return (lo, hi) if lo <= hi else a
+
+
+def _binop_range(fn, st, depth, _defs):
+    a, b = [x.strip() for x in st.ops[0].split(" , ")]
+    (al, ah), (bl, bh) = int_range(fn, a, depth, _defs), int_range(fn, b, depth, _defs)
+    if "Mul" in st.kind:
+        c = [al * bl, al * bh, ah * bl, ah * bh]
+        return (min(c), max(c))
+    if "Sub" in st.kind:
+        return (al - bh, ah - bl)
+    return (al + bl, ah + bh)
+
+
+def checked_arith_sites(fn):
+    """overflow-checked Add/Sub/Mul statements of a function outside cleanup:
+    (stmt, op, type, result interval, proven exact?)"""
+    out = []
+    d = None
+    for st in fn.stmts:
+        m = re.match(r"binop (Add|Sub|Mul)WithOverflow$", st.kind)
+        if not m or st.bb in fn.cleanup:
+            continue
+        ty = st.ops[1].strip() if len(st.ops) > 1 else ""
+        if d is None:
+            d = defs_of(fn)
+        r = _binop_range(fn, st, 12, d)
+        t = type_range(ty)
+        out.append((st, m.group(1), ty, r, t[0] <= r[0] and r[1] <= t[1]))
+    return out
